@@ -9,7 +9,7 @@ From Coq Require Import Init.Byte.
 From FFS Require Import Base.Res Base.Bytes Abi.Spec.
 From FFS Require Import Eip712.Util Eip712.Input Eip712.Numeric Eip712.Coerce Eip712.Model.
 From FFS Require Import Eip712.TotalProofsInput Eip712.TotalProofs Eip712.TotalProofsFuel Eip712.NumericProofs Eip712.SpellingProofs Eip712.SpellingDocProofs Eip712.SpellingDocOptProofs Eip712.ExactSpellingProofs.
-From FFS Require Import Base.Keccak Crypto.Ecdsa Eip712.ProofsSignVerify Eip712.ComposeJson Eip712.RefJsonNumber Eip712.RefDocument Eip712.RefSigner.
+From FFS Require Import Base.Keccak Crypto.Ecdsa Eip712.ProofsSignVerify Eip712.ComposeJson Eip712.RefJsonNumber Eip712.RefDocument Eip712.RefSigner Eip712.Wave6NumericText.
 From FFS Require Secp.Model.
 Import ListNotations.
 
@@ -456,3 +456,130 @@ Example C14_leading_zero_string_decided_by_oracle :
   (forall H o, o (bs "010") = None ->
      exists e, encodeElement H o [] 1 (bs "uint8") (GString (bs "010")) = Err e).
 Proof. exact leading_zero_string_is_oracle. Qed.
+
+
+(* ================================================================================================
+   Wave 6 (proofs: Eip712/Wave6NumericText.v).  The condition [classify t <> COther] of the clause-3
+   statements above is phrased through the model's own tokenizer.  It is replaced here by a grammar
+   of the text written without reference to the model,
+       numeric-text = [ "+" / "-" ] ( int [ frac ] [ exp ]  /  "0" ( "x" / "X" ) 1*HEXDIG )
+   ([numeric_text]; int / frac / exp = RFC 8259 section 6 as transcribed in RefJsonNumber.v), for
+   strings as well as JSON numbers; and the sufficient condition [exponent_moderate] of
+   C14_exact_spellings_agree by the necessary and sufficient [exponent_expandable].
+   ================================================================================================ *)
+
+(* 10. The math/big oracle of the model is consulted for a text iff the text is outside the grammar:
+       the declared gap of clause 3 is exactly the complement of [numeric_text]. *)
+Theorem C14_numeric_text_grammar_exact :
+  forall t, numeric_text t <-> classify t <> COther.
+Proof. exact numeric_text_iff_classified. Qed.
+Print Assumptions C14_numeric_text_grammar_exact.
+
+Theorem C14_oracle_asked_iff_outside_grammar :
+  forall o1 o2 t,
+    (numeric_text t -> BigIntegerFromString o1 t = BigIntegerFromString o2 t) /\
+    (~ numeric_text t ->
+     BigIntegerFromString o1 t = match o1 t with Some z => Ok z | None => Err EBadInteger end).
+Proof. exact oracle_asked_iff_outside_grammar. Qed.
+Print Assumptions C14_oracle_asked_iff_outside_grammar.
+
+(* 10a. Every JSON number and the three canonical spellings of every integer are in the grammar. *)
+Theorem C14_json_number_and_canonical_in_numeric_text :
+  (forall t, json_number t -> numeric_text t) /\
+  (forall z, numeric_text (dec_text z) /\ numeric_text (hex_text z)).
+Proof. split; [exact json_number_numeric_text | exact canonical_spellings_numeric_text]. Qed.
+Print Assumptions C14_json_number_and_canonical_in_numeric_text.
+
+(* 10b. Clause 3 at a member with the grammar as the only condition on the text, JSON number or
+       STRING (C14_inexact_rejected / C14_json_number_never_misread without [classify]) ... *)
+Theorem C14_numeric_text_never_misread :
+  forall H big_other allTypes fuel tn tc t v w,
+    integer_member_type allTypes tn tc -> numeric_text t -> (v = GNumber t \/ v = GString t) ->
+    encodeElement H big_other allTypes (S fuel) tn v = Ok w ->
+    exists z, text_denotes t z /\ in_range (is_signed (e_base tc)) (e_m tc) z = true /\ w = word z.
+Proof. exact numeric_text_member_exact. Qed.
+Print Assumptions C14_numeric_text_never_misread.
+
+(*      ... independent of the oracle ... *)
+Theorem C14_numeric_text_oracle_free :
+  forall H o1 allTypes o2 fuel tn tc t v,
+    integer_member_type allTypes tn tc -> numeric_text t -> (v = GNumber t \/ v = GString t) ->
+    encodeElement H o1 allTypes (S fuel) tn v = encodeElement H o2 allTypes (S fuel) tn v.
+Proof. exact numeric_text_member_oracle_free. Qed.
+Print Assumptions C14_numeric_text_oracle_free.
+
+(*      ... and on the document (C14_document_inexact_rejected without [classify]). *)
+Theorem C14_document_numeric_text_rejected :
+  forall H big_other td f tn tc t v,
+    doc_reaches td f tn v -> (v = GNumber t \/ v = GString t) -> numeric_text t ->
+    integer_member_type (effective_types (td_types td)) tn tc ->
+    (forall z, text_denotes t z -> in_range (is_signed (e_base tc)) (e_m tc) z = false) ->
+    exists e, EncodeTypedDataV4 H big_other (Some td) = Err e.
+Proof. exact document_numeric_text_rejected. Qed.
+Print Assumptions C14_document_numeric_text_rejected.
+
+(* 11. The exact boundary of acceptance.  On the grammar the coercion returns z IFF the text denotes
+       z and its exponent is expandable (written exponent within int64, and zero mantissa or
+       |exponent - fraction digits| <= 10^6) ... *)
+Theorem C14_numeric_text_accepted_iff :
+  forall big_other t z,
+    numeric_text t ->
+    (BigIntegerFromString big_other t = Ok z <-> text_denotes t z /\ exponent_expandable t).
+Proof. exact BigIntegerFromString_accepts_iff. Qed.
+Print Assumptions C14_numeric_text_accepted_iff.
+
+(*      ... so at an integer member a text of the grammar is hashed IFF it denotes an integer in
+       range of the type and its exponent is expandable, and the bytes are the word of that integer:
+       nothing exact inside the boundary is refused, and a text beyond the boundary is refused
+       whatever it denotes (rejected, not misread: the claim of the third [partial] item, now a
+       theorem).  [exponent_moderate] implies [exponent_expandable] (C14_exact_spellings_agree is the
+       special case). *)
+Theorem C14_numeric_text_hashed_iff :
+  forall H big_other allTypes fuel tn tc t v w,
+    integer_member_type allTypes tn tc -> numeric_text t -> (v = GNumber t \/ v = GString t) ->
+    (encodeElement H big_other allTypes (S fuel) tn v = Ok w <->
+     exists z, text_denotes t z /\ exponent_expandable t /\
+               in_range (is_signed (e_base tc)) (e_m tc) z = true /\ w = word z).
+Proof. exact numeric_text_member_iff. Qed.
+Print Assumptions C14_numeric_text_hashed_iff.
+
+Theorem C14_beyond_exponent_boundary_refused :
+  forall H big_other allTypes fuel tn tc t v,
+    integer_member_type allTypes tn tc -> numeric_text t -> ~ exponent_expandable t ->
+    (v = GNumber t \/ v = GString t) ->
+    exists e, encodeElement H big_other allTypes (S fuel) tn v = Err e.
+Proof. exact beyond_boundary_element. Qed.
+Print Assumptions C14_beyond_exponent_boundary_refused.
+
+Theorem C14_exponent_moderate_is_expandable :
+  forall t, exponent_moderate t -> exponent_expandable t.
+Proof. exact moderate_expandable. Qed.
+Print Assumptions C14_exponent_moderate_is_expandable.
+
+(* non-vacuity: texts inside the grammar (signed hex, upper-case prefix, '+' sign, fraction and
+   exponent) and Go's other base-0 syntaxes, all outside it *)
+Example C14_nonvacuous_numeric_text :
+  numeric_text (bs "-12") /\ numeric_text (bs "+0x1F") /\ numeric_text (bs "0XfF") /\
+  numeric_text (bs "+1.50E+3") /\ numeric_text (bs "1e77") /\ numeric_text (bs "-0") /\
+  ~ numeric_text (bs "010") /\ ~ numeric_text (bs "-010") /\ ~ numeric_text (bs "0b11") /\
+  ~ numeric_text (bs "0o17") /\ ~ numeric_text (bs "1_000") /\ ~ numeric_text (bs "0x_1f") /\
+  ~ numeric_text (bs "5.") /\ ~ numeric_text (bs "08") /\ ~ numeric_text (bs "0x1p4") /\
+  ~ numeric_text (bs "") /\ ~ numeric_text (bs "0x") /\ ~ numeric_text (bs "+-1") /\ ~ numeric_text (bs ".5").
+Proof. exact numeric_text_examples. Qed.
+
+(* a STRING of the grammar: "+0x100" at a uint8 member is never hashed, "0xff" is hashed as 255 *)
+Example C14_nonvacuous_numeric_string :
+  forall (H : bytes -> bytes) (o : bytes -> option Z) fuel w,
+    encodeElement H o [] (S fuel) (bs "uint8") (GString (bs "+0x100")) <> Ok w /\
+    encodeElement H o [] (S fuel) (bs "uint8") (GString (bs "0xff")) = Ok (word 255).
+Proof. exact numeric_text_string_examples. Qed.
+
+(* the boundary: "0e9999999" is beyond exponent_moderate but expandable and read as 0; "1e1000000" is
+   inside; "1e1000001" (an exact text: it denotes 10^1000001) and an exponent outside int64 are beyond *)
+Example C14_nonvacuous_exponent_boundary :
+  numeric_text (bs "0e9999999") /\ exponent_expandable (bs "0e9999999") /\ ~ exponent_moderate (bs "0e9999999") /\
+  (forall o, BigIntegerFromString o (bs "0e9999999") = Ok 0%Z) /\
+  numeric_text (bs "1e1000001") /\ ~ exponent_expandable (bs "1e1000001") /\
+  numeric_text (bs "1e9223372036854775808") /\ ~ exponent_expandable (bs "1e9223372036854775808") /\
+  numeric_text (bs "1e1000000") /\ exponent_expandable (bs "1e1000000").
+Proof. exact boundary_examples. Qed.
